@@ -156,6 +156,14 @@ pub fn eval(ctx: &Ctx, case: &Case) {
             // reference-made SPKI must decode
             let rspki = der::spki_encode(&sm2::encode_point(&want, false));
             same_pub(ctx, "Sm2PublicKey::from_public_key_der", &format!("reference-spki/{}", tag), guard(|| es(Sm2PublicKey::from_public_key_der(&rspki))), &want, &cj);
+            // a BIT STRING that declares 1..7 unused bits holds a key of 513..519 bits: a wrong length, never this key
+            for unused in 1..=7u8 {
+                let mut doc = rspki.clone();
+                let at = doc.len() - 66;
+                assert_eq!(doc[at], 0, "unused-bits octet of the reference SPKI");
+                doc[at] = unused;
+                must_reject(ctx, "Sm2PublicKey::from_public_key_der", "spki-bit-string-with-unused-bits", guard(|| es(Sm2PublicKey::from_public_key_der(&doc))), hex::encode(&doc), &cj);
+            }
             // the document OpenSSL writes with -conv_form compressed: subjectPublicKey = 02/03 || X
             {
                 let cspki = der::spki_encode(&sm2::encode_point(&want, true));
@@ -299,6 +307,14 @@ pub fn eval(ctx: &Ctx, case: &Case) {
             }
             let rspki = der::spki_encode(&sm2::encode_point(&want, false));
             same_pub(ctx, "Sm2PublicKey::from_public_key_der", &format!("reference-spki/{}", tag), guard(|| es(Sm2PublicKey::from_public_key_der(&rspki))), &want, &cj);
+            // a BIT STRING that declares 1..7 unused bits holds a key of 513..519 bits: a wrong length, never this key
+            for unused in 1..=7u8 {
+                let mut doc = rspki.clone();
+                let at = doc.len() - 66;
+                assert_eq!(doc[at], 0, "unused-bits octet of the reference SPKI");
+                doc[at] = unused;
+                must_reject(ctx, "Sm2PublicKey::from_public_key_der", "spki-bit-string-with-unused-bits", guard(|| es(Sm2PublicKey::from_public_key_der(&doc))), hex::encode(&doc), &cj);
+            }
             // the document OpenSSL writes with -conv_form compressed: subjectPublicKey = 02/03 || X
             {
                 let cspki = der::spki_encode(&sm2::encode_point(&want, true));
@@ -552,6 +568,8 @@ pub fn eval(ctx: &Ctx, case: &Case) {
                     let (c2f, c3f) = crate::c06::complete(&d, &fpt, &msg).expect("foreign-curve multiple is finite");
                     der::sm2_cipher_encode(&fx, &fy, &c3f, &c2f)
                 }
+                "y-too-long" => der::sm2_cipher_encode(&x, &(&y + (BigUint::one() << 256)), &ct.c3, &ct.c2),
+                "y-33-octets-ff" => der::sm2_cipher_encode(&x, &(&y + (BigUint::from(0xffu32) << 256)), &ct.c3, &ct.c2),
                 "x-too-long" => der::sm2_cipher_encode(&(&x + (BigUint::one() << 256)), &y, &ct.c3, &ct.c2),
                 "short-hash" => der::sm2_cipher_encode(&x, &y, &ct.c3[..31], &ct.c2),
                 "trailing-bytes" => {
@@ -585,6 +603,11 @@ fn special_keys(seed: u64) -> Vec<(String, BigUint)> {
         ("y-even", Box::new(|_, y| y[31] & 1 == 0)),
         ("y-odd", Box::new(|_, y| y[31] & 1 == 1)),
         ("x-trailing-zero-byte", Box::new(|x, _| x[31] == 0)),
+        // coordinates that begin with a byte that is also a SEC1 tag or a DER tag
+        ("x-starts-with-04", Box::new(|x, _| x[0] == 0x04)),
+        ("x-starts-with-02-or-03", Box::new(|x, _| x[0] == 0x02 || x[0] == 0x03)),
+        ("x-starts-with-30", Box::new(|x, _| x[0] == 0x30)),
+        ("y-starts-with-04", Box::new(|_, y| y[0] == 0x04)),
     ];
     let mut out = Vec::new();
     let mut g = SplitMix::new(seed, "c19special");
@@ -614,7 +637,7 @@ pub fn run(ctx: &Arc<Ctx>) {
     refmodels::selftest::run(&["sm3", "sm2"]).unwrap_or_else(|e| ctx.machinery_error(format!("reference self-test failed: {}", e)));
     let n = sm2::params().n.clone();
     let pr = sm2::params();
-    ctx.set_rule("keys {1,2,n-2,Annex,seeded,searched for leading/trailing zero bytes, high bit, both parities} through every encoder and decoder (SEC1 both forms, hex both cases, SPKI DER/PEM LF+CRLF, bytes, hex, PKCS#8 DER/PEM) with an independent DER reader on the library's documents, and reference-written SPKI DER / PEM documents (LF and CRLF) carrying the uncompressed and the compressed point through from_public_key_der / from_public_key_pem / str::parse; public points with the smallest x and with x within 2^64 of p (both roots), and points held as Jacobian key objects (Z in {2, p-1, seeded}), through every public-key encoder and decoder; PKCS#8 documents whose embedded public key belongs to another key or is off the curve (refused, or decoded to (d, [d]G)); 20 OpenSSL key pairs; decoder negatives: every length 0..=130 at Sm2PublicKey::new / from_hex_string / Sm2PrivateKey::new, off-curve and unreduced coordinates, foreign tags and valid encodings followed by 256 / 65536 further bytes via new / hex / SPKI; private keys of 32 + 256k bytes; ASN.1 ciphertext for message lengths {14..30, 120..160, 250..260, 65424..65436, 65534..65537} (every DER length form and the boundaries between them) and {1,32,100} x ephemeral scalars pre-searched so that C1.x / C1.y have 1..3 leading zero bytes, trailing zero bytes or the top bit set x 4 parameter combinations: document = GM/T 0009 SEQUENCE of (C1.x, C1.y, C3, C2) byte for byte, decrypt_asn1 of it, of the reference's and of OpenSSL's documents returns M; malformed documents, and off-curve (x, y) whose body was completed on the foreign curve, are refused without a panic.");
+    ctx.set_rule("keys {1,2,n-2,Annex,seeded,searched for leading/trailing zero bytes, high bit, both parities, coordinates starting with 02/03/04/30} through every encoder and decoder (SEC1 both forms, hex both cases, SPKI DER/PEM LF+CRLF, bytes, hex, PKCS#8 DER/PEM) with an independent DER reader on the library's documents, and reference-written SPKI DER / PEM documents (LF and CRLF) carrying the uncompressed and the compressed point through from_public_key_der / from_public_key_pem / str::parse; public points with the smallest x and with x within 2^64 of p (both roots), and points held as Jacobian key objects (Z in {2, p-1, seeded}), through every public-key encoder and decoder; PKCS#8 documents whose embedded public key belongs to another key or is off the curve (refused, or decoded to (d, [d]G)); 20 OpenSSL key pairs; decoder negatives: SPKI BIT STRINGs declaring 1..7 unused bits, every length 0..=130 at Sm2PublicKey::new / from_hex_string / Sm2PrivateKey::new, off-curve and unreduced coordinates, foreign tags and valid encodings followed by 256 / 65536 further bytes via new / hex / SPKI; private keys of 32 + 256k bytes; ASN.1 ciphertext for message lengths {14..30, 120..160, 250..260, 65424..65436, 65534..65537} (every DER length form and the boundaries between them) and {1,32,100} x ephemeral scalars pre-searched so that C1.x / C1.y have 1..3 leading zero bytes, trailing zero bytes or the top bit set x 4 parameter combinations: document = GM/T 0009 SEQUENCE of (C1.x, C1.y, C3, C2) byte for byte, decrypt_asn1 of it, of the reference's and of OpenSSL's documents returns M; malformed documents, and off-curve (x, y) whose body was completed on the foreign curve, are refused without a panic.");
     let mut cases: Vec<Case> = Vec::new();
     let mut g = SplitMix::new(ctx.seed, "c19");
     let mut keys: Vec<(String, BigUint)> = vec![("1".into(), BigUint::one()), ("2".into(), BigUint::from(2u32)), ("n-2".into(), &n - 2u32), ("annex".into(), hb(ANNEX_D))];
@@ -755,7 +778,7 @@ pub fn run(ctx: &Arc<Ctx>) {
     for idx in 0..openssl_cts().len() {
         cases.push(Case::Asn1OpenSsl { idx });
     }
-    for kind in ["empty", "truncated", "not-sequence", "garbage", "offcurve-y", "offcurve-completed-(1,1)", "offcurve-completed-(x,y+1)", "offcurve-completed-(x+1,y)", "x-too-long", "short-hash", "trailing-bytes"] {
+    for kind in ["empty", "truncated", "not-sequence", "garbage", "offcurve-y", "offcurve-completed-(1,1)", "offcurve-completed-(x,y+1)", "offcurve-completed-(x+1,y)", "x-too-long", "y-too-long", "y-33-octets-ff", "short-hash", "trailing-bytes"] {
         cases.push(Case::Asn1Bad { kind: kind.into() });
     }
     ctx.note_bound(format!("{} cases", cases.len()));
